@@ -529,9 +529,78 @@ def history_unit(shape, depth):
 
         check(model0, ("built",), [])
         run(model0, [], None, set(), 0)
+        # longer histories through prefixes that leave OUTDATED nodes behind while auto-update is on again
+        # (auto-update off, assign, [targeted update], auto-update on), each continued by every history of 2 further operations
+        for s0 in strong:
+            for tgt in [None] + (targets[:1] if s0 == strong[0] or depth > 3 else []):
+                m = deep_copy(ip, model0)
+                counting["n"] = {}
+                ip.setattr(m, "auto_update", False)
+                ip.setattr(m.f["_vars"][s0], "value", z3.Const(f"pre_{s0}", U))
+                desc = descendants(m, s0)
+                d = {nm for nm, nd in m.f["_nodes"].items() if id(nd) in desc and nd.clsname in ("Calc", "Dist")}
+                pre = [("toggle",), ("assign", s0)]
+                if tgt is not None:
+                    counting["n"] = {}
+                    ip.call(method(ip, m, "update"), [tgt], {})
+                    d -= set(counting["n"])
+                    pre.append(("update", tgt))
+                ip.setattr(m, "auto_update", True)
+                pre.append(("toggle",))
+                check(m, ("prefix",), pre)
+                run(m, pre, None, set(d), depth - 2)
         c.oblige("histories_enumerated", stats["states"] > 50)
         c.notes.append(f"{shape}: {stats['states']} model states checked over histories of length <= {depth}")
     return u
+
+
+def any_flags_unit(shape):
+    @unit(f"C01.update_from_cleared_nodes.{shape}", "C01", [f"{M}::Model.update", f"{M}::Model.state.fget", f"{M}::Model.state.fset", f"{N}::Node.clear_state", f"{N}::Node.state.fset",
+                                                          f"{N}::Calc.update", f"{N}::Dist.update", f"{M}::Model.__init__"],
+          assumptions=[f"graph shape '{shape}'; every single caching node, every pair, and all caching nodes cleared through the public Node.clear_state(); values / functions symbolic"])
+    def u(ip, shape=shape):
+        """whatever makes nodes outdated - here the public Node.clear_state() on any one, any two or all caching nodes, or restoring a
+        snapshot that contains outdated nodes after the model was updated in between - a full update leaves nothing outdated with every
+        node at its from-scratch value, and a targeted update does so for the named node and its ancestors."""
+        c = ip.ctx
+        install_graph_models(ip)
+        counting = {"on": False, "n": {}}
+        g = G(ip)
+        model0 = g.build(*SHAPES_C01[shape](g))
+        caching = [nm for nm, nd in model0.f["_nodes"].items() if nd.clsname in ("Calc", "Dist")]
+        import itertools
+        subsets = [(a,) for a in caching] + list(itertools.combinations(caching, 2)) + [tuple(caching)]
+        n_states = 0
+        for sub in subsets:
+            for mode in ("full", "snapshot_roundtrip", "targeted"):
+                if mode != "full" and len(sub) != 1:
+                    continue
+                m = deep_copy(ip, model0)
+                for nm in sub:
+                    ip.call(method(ip, m.f["_nodes"][nm], "clear_state"), [], {})
+                if mode == "snapshot_roundtrip":
+                    snap = ip.getattr(m, "state")
+                    ip.call(method(ip, m, "update"), [], {})
+                    ip.setattr(m, "state", snap)
+                if mode == "targeted":
+                    ip.call(method(ip, m, "update"), [sub[0]], {})
+                    fs = from_scratch(ip, m, counting)
+                    anc = topo([m.f["_nodes"][sub[0]]])
+                    okv = all(ip.truth(ip.getattr(nd, "outdated")) is not True and same_value(ip, ip.getattr(nd, "value"), fs[id(nd)]) for nd in anc)
+                    c.oblige("targeted_update_recomputes_cleared_node", okv, cleared=str(sub))
+                else:
+                    ip.call(method(ip, m, "update"), [], {})
+                    fs = from_scratch(ip, m, counting)
+                    bad = [nm for nm, nd in m.f["_nodes"].items() if ip.truth(ip.getattr(nd, "outdated")) is True or not (
+                        same_value(ip, ip.getattr(nd, "value"), fs[id(nd)]) or isinstance(fs[id(nd)], float))]
+                    c.oblige(f"{mode}.update_leaves_every_node_fresh", not bad, cleared=str(sub), stale=str(bad))
+                n_states += 1
+        c.oblige("configurations_enumerated", n_states >= len(caching))
+    return u
+
+
+for _s in SHAPES_C01:
+    any_flags_unit(_s)
 
 
 import os as _os  # noqa: E402
